@@ -25,15 +25,16 @@
 (*      list's file only if the whole body parsed and its checksum is new  *)
 (*   2. copy count/checksum back, for the lists that really changed        *)
 (*   3. rebuild the engines from the files, if any list changed            *)
-(* AsIs = TRUE additionally models what the code does today in phase 3     *)
-(* (see NetErr below); the property is stated and checked for AsIs = FALSE *)
-(* and TLC shows that AsIs = TRUE violates it (FilterRefresh.asis.cfg).    *)
+(* Next to the state the statement requires (st), After also computes the  *)
+(* state today's code reaches in phase 3 (asis, see NetErr below).  The    *)
+(* property is stated and checked for st; FilterRefresh.asis.cfg lets TLC  *)
+(* show that following asis violates it; the conformance checks use asis   *)
+(* only to CLASSIFY a disagreement as that one known deviation.            *)
 (***************************************************************************)
 EXTENDS RuleListCore
 
 CONSTANTS Lists,   \* names of the configured lists
-          Block,   \* the blocklists among them; the others are allowlists
-          AsIs
+          Block    \* the blocklists among them; the others are allowlists
 
 KindOf(l) == IF l \in Block THEN "block" ELSE "allow"
 
@@ -116,10 +117,13 @@ After(cfg, S, sel, ch) ==
         NetErr  == \E k \in {"block", "allow"} :
                        LET sk == {l \in sel : KindOf(l) = k} IN
                        sk # {} /\ \A l \in sk : ~ch[l].ok
-        rebuild == chg # {} /\ ~(AsIs /\ NetErr)
-        eng3  == IF rebuild THEN [l \in Lists |-> InForce(cfg, file1, l)] ELSE S.eng
-    IN [st  |-> [file |-> file1, count |-> cnt2, sum |-> sum2, eng |-> eng3],
-        rew |-> chg]
+        built == [l \in Lists |-> InForce(cfg, file1, l)]
+        eng3  == IF chg # {} THEN built ELSE S.eng
+        engAI == IF chg # {} /\ ~NetErr THEN built ELSE S.eng
+    IN [st     |-> [file |-> file1, count |-> cnt2, sum |-> sum2, eng |-> eng3],
+        asis   |-> [file |-> file1, count |-> cnt2, sum |-> sum2, eng |-> engAI],
+        rew    |-> chg,                          \* lists whose file was replaced
+        failed |-> {l \in sel : ~ch[l].ok}]
 
 \* All admissible results of Refresh (a set because Outcomes is one).
 Results(cfg, S, act, script) ==
